@@ -371,6 +371,9 @@ func (g *Gen) execUserCall(c *ssa.CallCommon, in ssa.Instruction, recv *Val, arg
 	if c.IsInvoke() {
 		con = e.ifaceContract(c)
 		all = append([]*Val{recv}, args...)
+	} else if gc := e.namedDynContract(c); gc != nil {
+		con = gc
+		all = args
 	} else if ftc := e.funcTypeContract(c); ftc != nil {
 		fv := g.val(c.Value)
 		g.oblige("nilcall", "", sx("distinct", fv.T, "0"), g.pos(in), "call of a nil function value")
